@@ -15,7 +15,10 @@ RULE = (
     "Quantity operators. Oracle: the same tree evaluated in an independent dimensional-analysis model "
     "(exponent vector per quantity type, magnitude in base units from per-unit slopes): dims equal, no zero "
     "exponent kept, a/a empty with unit '', magnitude within rel 1e-9; a//b within one result unit below the true "
-    "quotient; metamorphic: mag(a*b)=mag(b*a), mag((a*b)/b)=mag(a), a**n == n-fold product. Non-trivial = some "
+    "quotient; metamorphic: mag(a*b)=mag(b*a), mag((a*b)/b)=mag(a), a op b computed twice on the same operand "
+    "objects gives the model amount both times, every tree with a unit conversion evaluates identically on the "
+    "long-lived database of the shard and on a freshly built one, and a battery of products matching one of its unit "
+    "pairs in both directions with exponents +-2, +-3 agrees with the model on the long-lived database, a**n == n-fold product. Non-trivial = some "
     "operand is converted (shared type, different units) with exponent != 1, or >= 3 leaves; distinct key = tree."
 )
 ASSUMPTIONS = ["UnitModel slopes come from single-unit float conversions (validated by C01)", "**0 and negative powers are outside the statement"]
@@ -163,12 +166,32 @@ class Checker:
             return
         obj = self.ev(t, kind)
         self.check_result(case, t, obj, kind, "tree")
+        if converted and kind != "quantity":
+            # the shard's database has served every earlier example; the same tree on a freshly built database
+            # must give the identical result (nothing remembered from earlier unit matching may leak in)
+            fdb = env.new_db("posc")
+            with env.pushed(fdb):
+                fresh = self.ev(t, kind)
+                fv = self.values_of(fresh, kind)
+                fq = repr(fresh.GetQuantity())
+            ctx.ev()
+            wv = self.values_of(obj, kind)
+            if [float(x) for x in fv] != [float(x) for x in wv] or fq != repr(obj.GetQuantity()):
+                ctx.fail("result_depends_on_earlier_operations", case, "the tree evaluates to %r on the long-lived database and to %r on a freshly built one" % (obj, fresh))
+            ctx.cls("compared_with_fresh_database")
+            self.pair_battery(case, leaves)
         _, md = self.model(t, 0)
         if not md:
             ctx.cls("cancels_to_dimensionless")
         # metamorphic relations at the root
         if t[0] in ("*", "/") and kind != "quantity":
             a, b = self.ev(t[1], kind), self.ev(t[2], kind)
+            # the same operand objects used twice: the second result is the same amount again (an operation that
+            # rescales an operand's container while matching units shows up here, whatever the container kind)
+            first = a * b if t[0] == "*" else a / b
+            again = a * b if t[0] == "*" else a / b
+            self.check_result(case, t, first, kind, "a op b (operands reused, 1st)")
+            self.check_result(case, t, again, kind, "a op b (operands reused, 2nd)")
             if t[0] == "*":
                 ba = b * a
                 self.check_result(case, ("*", t[2], t[1]), ba, kind, "b*a")
@@ -196,6 +219,37 @@ class Checker:
             for v in self.values_of(aa, kind):
                 if not relclose(v, 1.0, 1e-9):
                     ctx.fail("self_division_not_one", case, "x/x = %r" % (aa,))
+
+    def pair_battery(self, case, leaves):
+        """For one pair (u, v) of different units of one quantity type met in the tree: a fixed battery of products
+        that match the pair in both directions, with positive and negative exponents 2 and 3, on the long-lived
+        database - each against the model.  Whatever earlier matching left behind must not show."""
+        by_qt = {}
+        for leaf in leaves:
+            by_qt.setdefault(self.um.qt[leaf[2]], []).append(leaf)
+        for qt, ls in sorted(by_qt.items()):
+            us = sorted(set(l[2] for l in ls))
+            if len(us) < 2 or qt == "time":
+                continue
+            U = next(l for l in ls if l[2] == us[0])
+            V = next(l for l in ls if l[2] == us[1])
+            U = ("leaf", 2.0, U[2], U[3])
+            V = ("leaf", 3.0, V[2], V[3])
+            S = ("leaf", 5.0, "s", "time")
+            trees = [
+                ("*", U, ("**", V, 2)),
+                ("*", V, ("/", S, ("**", U, 2))),
+                ("*", V, ("**", U, 3)),
+                ("*", U, ("/", S, ("**", V, 3))),
+                ("/", U, ("**", V, 2)),
+                ("*", V, ("**", U, 2)),
+                ("*", U, ("/", S, ("**", V, 2))),
+            ]
+            for k, bt in enumerate(trees):
+                obj = self.ev(bt, "scalar")
+                self.check_result(dict(case, battery=[qt, us[0], us[1], k]), bt, obj, "scalar", "pair battery %d for %s/%s" % (k, us[0], us[1]))
+            self.ctx.cls("pair_batteries")
+            return
 
     def check_floor(self, case, t, kind):
         """Trees containing `//`: only the top-most floor division whose operands are floor-free is
